@@ -406,10 +406,19 @@ class RequestWideParams(object):
         # TODO(efried): Make it an error to specify limit more than once -
         #  maybe when we make group_policy optional.
         limit = req.GET.getall('limit')
-        # JSONschema has already confirmed that limit has the form
-        # of an integer.
+        # JSONschema has confirmed that limit has the form of a positive
+        # integer, but when limit is given more than once only for the last
+        # value; we use the first.
         if limit:
-            limit = int(limit[0])
+            try:
+                limit = int(limit[0])
+                if limit < 1:
+                    raise ValueError()
+            except ValueError:
+                raise webob.exc.HTTPBadRequest(
+                    'Invalid query string parameters: limit must be a '
+                    'positive integer.',
+                    comment=errors.QUERYPARAM_BAD_VALUE)
 
         # TODO(efried): Make it an error to specify group_policy more than once
         #  - maybe when we make it optional.
